@@ -86,13 +86,17 @@ def topologies(max_world):
     return out
 
 
-def gen_spec(rng, max_world=8, checkpoint=False, clip=None, topo=None):
+def gen_spec(rng, max_world=8, checkpoint=False, clip=None, topo=None, deep=0.1):
     pp, dp, mp = topo or rng.choice([t for t in topologies(max_world) if t[0] <= 2])
     unit = mp * rng.choice([1, 2])
     nblocks = rng.randint(1, 2)
+    is_deep = rng.random() < deep   # many layers: global layer names such as '1' and '10' (one is a substring of the other)
     blocks = []
     for s in range(pp):
-        b = [rng.choice(['mlp', 'mlp', 'col', 'row'])] if nblocks == 1 else ['mlp', rng.choice(['mlp', 'col'])]
+        if is_deep:
+            b = ['mlp'] * rng.randint(5, 7)
+        else:
+            b = [rng.choice(['mlp', 'mlp', 'col', 'row'])] if nblocks == 1 else ['mlp', rng.choice(['mlp', 'col'])]
         blocks.append(b)
     spec = dict(pp=pp, dp=dp, mp=mp, blocks=blocks, d_in=rng.randint(2, 4), hidden=unit * rng.randint(1, 2), d_out=rng.randint(2, 4),
                 bias=rng.random() < 0.6, batch=rng.randint(1, 4), kl=(clip if clip is not None else rng.choice([1e9, 1e-3])),
